@@ -2,16 +2,22 @@
 import copy
 import random
 
-from .. import compile_exec, gen
+from .. import absfont, compile_exec, dsbuild, gen, project
 from . import c02
+from ..absfont import MS, PS
 
 PROPERTY = "C13"
 TRACE_MODULE = "PipelineTrace"
 TRACE_CFG = "PipelineTrace.cfg"
+ACCEPTORS = {"_default": ("PipelineTrace", "PipelineTrace.cfg"), "var": ("SkipVarTrace", "SkipVarTrace.cfg")}
 RULE = ("random exact-domain UFOs x random subsets of glyphs to skip (used as components at any depth, incl. skipped inside "
         "skipped and mirrored references; given by argument or by public.skipExportGlyphs) x {compileOTF, compileTTF} x "
         "{defcon, ufoLib2}; each case is also compiled WITHOUT skipping to compare the order of the remaining glyphs; "
-        "non-trivial = a skipped glyph is referenced by a remaining glyph; distinct by source digest + skip set")
+        "non-trivial = a skipped glyph is referenced by a remaining glyph; distinct by source digest + skip set; plus "
+        "designspace families (two full masters and, mostly, a sparse layer master holding a random subset of glyphs; integer "
+        "line outlines, mirrored / rotated components nested up to depth 3, skip lists with skipped-inside-skipped chains) "
+        "compiled with compileVariableTTF / compileVariableCFF2 with and without the skip list (designspace lib) "
+        "and instantiated at every source location")
 ASSUMPTIONS = ["generated kerning / mark positioning between remaining glyphs is decided by C05 / C06 with skip lists",
                "contours are compared as multisets per glyph (the filter may reorder contours of different components)"]
 
@@ -49,10 +55,192 @@ def cases(tier, seed):
             ufo["order"] = rng.sample(names, len(names))
         out.append({"cid": f"c13-{seed}-{k}", "lib": rng.choice(["ufoLib2", "defcon"]), "flavor": flavor, "ufo": ufo,
                     "kwargs": kwargs, "wantCmap": True, "skip": skip})
+    nv = 40 if tier == "quick" else 600
+    for k in range(nv):
+        out.append(_var_case(rng, f"c13-{seed}-v{k}"))
     return out
 
 
+_FLIPS = [[MS, 0, 0, MS], [MS, 0, 0, MS], [-MS, 0, 0, MS], [MS, 0, 0, -MS], [-MS, 0, 0, -MS]]
+_VNAMES = ["A", "B", "_bar", "_bar.alt", "_part", "Abar", "Bbar", "C", "D_"]
+
+
+def _poly(rng):
+    n = rng.randint(3, 5)
+    x0, y0 = rng.randint(-2, 4) * 100, rng.randint(-2, 4) * 100
+    pts = [(x0, y0), (x0 + 300, y0 + rng.randint(0, 1) * 100), (x0 + 400, y0 + 300), (x0 + 100, y0 + 500), (x0 - 200, y0 + 200)][:n]
+    return [[x * PS, y * PS, "line"] for x, y in pts]
+
+
+def _perturb(rng, g):
+    h = copy.deepcopy(g)
+    for c in h["cs"]:
+        for p in c:
+            p[0] += 2 * rng.randint(-15, 15) * PS
+            p[1] += 2 * rng.randint(-15, 15) * PS
+    for c in h["comps"]:
+        c["d"][0] += 2 * rng.randint(-20, 20) * PS
+        c["d"][1] += 2 * rng.randint(-20, 20) * PS
+    h["w"] += 2 * rng.randint(0, 40) * PS
+    return h
+
+
+def _var_case(rng, cid):
+    n = rng.randint(4, 7)
+    names = rng.sample(_VNAMES, n)
+    m0, depth = {}, {}
+    for idx, name in enumerate(names):
+        g = {"cs": [], "comps": [], "anchors": [], "w": rng.randint(2, 7) * 100 * PS, "h": 0, "u": [0x41 + idx] if rng.random() < 0.6 else []}
+        earlier = [e for e in names[:idx] if depth[e] < 3]
+        if earlier and rng.random() < 0.65:
+            for _ in range(rng.randint(1, 2)):
+                g["comps"].append({"b": rng.choice(earlier), "m": list(rng.choice(_FLIPS)),
+                                   "d": [rng.randint(-3, 3) * 50 * PS, rng.randint(-3, 3) * 50 * PS]})
+        else:
+            for _ in range(rng.randint(1, 2)):
+                g["cs"].append(_poly(rng))
+        depth[name] = 1 + max(depth[c["b"]] for c in g["comps"]) if g["comps"] else 0
+        m0[name] = g
+    # the pattern the two repository fixtures do not have: remaining composite -> skipped composite -> skipped glyph, where
+    # only the innermost one has an intermediate master
+    chain = None
+    if rng.random() < 0.5:
+        chains = [(a, c1["b"], c2["b"]) for a in names for c1 in m0[a]["comps"] for c2 in m0[c1["b"]]["comps"]]
+        if not chains and n >= 3:
+            a, b, c = names[2], names[1], names[0]
+            m0[b]["cs"], m0[b]["comps"] = [], [{"b": c, "m": list(rng.choice(_FLIPS)), "d": [rng.randint(-3, 3) * 50 * PS, 0]}]
+            m0[a]["cs"], m0[a]["comps"] = [], [{"b": b, "m": list(rng.choice(_FLIPS)), "d": [0, rng.randint(-3, 3) * 50 * PS]}]
+            if m0[c]["comps"]:
+                m0[c]["comps"], m0[c]["cs"] = [], [_poly(rng)]
+            chains = [(a, b, c)]
+        if chains:
+            chain = rng.choice(chains)
+    m1 = {k: _perturb(rng, g) for k, g in m0.items()}
+    sparse = {}
+    if chain or rng.random() < 0.8:
+        pick = [k for k in names if rng.random() < 0.35] or [names[0]]
+        if chain:
+            pick = sorted((set(pick) - {chain[0], chain[1]}) | {chain[2]})
+        mid = {k: {"cs": [[[(p[0] + q[0]) // 2, (p[1] + q[1]) // 2, "line"] for p, q in zip(c0, c1)] for c0, c1 in zip(m0[k]["cs"], m1[k]["cs"])],
+                   "comps": [{"b": a["b"], "m": list(a["m"]), "d": [(a["d"][0] + b["d"][0]) // 2, (a["d"][1] + b["d"][1]) // 2]}
+                             for a, b in zip(m0[k]["comps"], m1[k]["comps"])],
+                   "anchors": [], "w": (m0[k]["w"] + m1[k]["w"]) // 2, "h": 0, "u": []} for k in pick}
+        sparse = {k: _perturb(rng, g) for k, g in mid.items()}
+    # skip lists that like chains: a composite together with (some of) what it references
+    skip = set(gen.subset(rng, names, rng.choice([0.2, 0.35])))
+    for name in names:
+        if m0[name]["comps"] and rng.random() < 0.35:
+            skip.add(name)
+            skip.update(c["b"] for c in m0[name]["comps"] if rng.random() < 0.8)
+    if chain:
+        skip = (skip - {chain[0]}) | {chain[1], chain[2]}
+    skip = sorted(skip)
+    if len(skip) >= len(names):
+        skip = skip[:-1]
+    return {"cid": cid, "var": True, "lib": rng.choice(["ufoLib2", "defcon"]), "flavor": rng.choice(["tt", "tt", "cff2"]),
+            "m0": m0, "m1": m1, "sparse": sparse, "skip": skip, "via": "dslib", "names": names}   # (the designspace functions take the list from the designspace lib only, as documented)
+
+
+def _render(font):
+    """{name: [[ [x, y] ...] ...]} closed contours as drawn (components resolved by the glyph set), PS-scaled integers"""
+    from fontTools.pens.recordingPen import DecomposingRecordingPen
+
+    gs = font.getGlyphSet()
+    out = {}
+    for name in font.getGlyphOrder():
+        pen = DecomposingRecordingPen(gs)
+        gs[name].draw(pen)
+        cs, cur = [], None
+        for op, args in pen.value:
+            if op == "moveTo":
+                cur = [args[0]]
+                cs.append(cur)
+            elif op == "lineTo":
+                cur.append(args[0])
+            elif op in ("curveTo", "qCurveTo"):
+                cur.extend(a for a in args if a is not None)
+        res = []
+        for c in cs:
+            pts = [[absfont.to_scaled(x, PS), absfont.to_scaled(y, PS)] for x, y in c]
+            ded = [p for k, p in enumerate(pts) if k == 0 or p != pts[k - 1]]
+            while len(ded) > 1 and ded[-1] == ded[0]:
+                ded.pop()
+            res.append(ded)
+        out[name] = res
+    return out
+
+
+def _execute_var(case):
+    import io
+
+    import ufo2ft
+    from fontTools.ttLib import TTFont
+    from fontTools.varLib import instancer
+
+    lib = case["lib"]
+    names = case["names"]
+
+    def family(skip_lib):
+        def ufo(gl, k):
+            u = {"glyphs": copy.deepcopy(gl), "order": names, "glyphNames": names,
+                 "info": {"unitsPerEm": 1000, "ascender": 800, "descender": -200, "familyName": "SkipVar", "styleName": f"M{k}"}}
+            if k == 0 and case["sparse"]:
+                u["layers"] = {"sparse": copy.deepcopy(case["sparse"])}
+            return u
+        masters = [{"loc": {"Weight": 0}, "ufo": ufo(case["m0"], 0), "name": "M0"}, {"loc": {"Weight": 8}, "ufo": ufo(case["m1"], 1), "name": "M1"}]
+        if case["sparse"]:
+            masters.insert(1, {"loc": {"Weight": 4}, "layer": "sparse", "of": 0, "name": "Sparse"})
+        return {"axes": [{"name": "Weight", "tag": "wght", "min": 0, "default": 0, "max": 8}], "masters": masters,
+                "lib": {"public.skipExportGlyphs": skip_lib} if skip_lib else {}}
+
+    fn = ufo2ft.compileVariableTTF if case["flavor"] == "tt" else ufo2ft.compileVariableCFF2
+    kw = {"useProductionNames": False}
+    if case["flavor"] == "tt":
+        kw["optimizeGvar"] = False      # IUP-inferred deltas are only within half a unit: keep the instances exact
+    rec = {"tid": case["cid"], "_acc": "var", "skip": case["skip"], "m0": case["m0"], "m1": case["m1"], "sparse": case["sparse"],
+           "_sig": [case["cid"]]}
+    builds = []
+    for which in (0, 1):
+        if which == 0:
+            ds = dsbuild.build_designspace(family([]), lib)
+            k2 = dict(kw)
+        elif case["via"] == "dslib":
+            ds = dsbuild.build_designspace(family(case["skip"]), lib)
+            k2 = dict(kw)
+        else:
+            ds = dsbuild.build_designspace(family([]), lib)
+            k2 = dict(kw, skipExportGlyphs=list(case["skip"]))
+        try:
+            vf = fn(ds, **k2)
+            data, vf = project.save_reload(vf)
+        except Exception as e:  # noqa
+            if which == 0:
+                return [{"tid": case["cid"], "skip": True, "why": "unskipped build fails: " + type(e).__name__ + " " + str(e)[:100]}]
+            rec["err"] = type(e).__name__ + ": " + str(e)[:160]
+            return [rec]
+        builds.append(data)
+    f0, f1 = (TTFont(io.BytesIO(d)) for d in builds)
+    rec["order0"], rec["order1"] = f0.getGlyphOrder(), f1.getGlyphOrder()
+    cm = set()
+    for t in f1["cmap"].tables:
+        cm |= set(t.cmap.values())
+    rec["cmap1"] = sorted(cm)
+    rec["locs"] = []
+    for loc in ([0, 4, 8] if case["sparse"] else [0, 8]):
+        insts = [instancer.instantiateVariableFont(TTFont(io.BytesIO(d)), {"wght": loc}, inplace=False) for d in builds]
+        try:
+            r0, r1 = _render(insts[0]), _render(insts[1])
+        except absfont.Inexact as e:
+            return [{"tid": case["cid"], "skip": True, "why": f"inexact instance: {e}"}]
+        rec["locs"].append({"loc": loc, "r0": r0, "r1": r1,
+                            "adv0": {n: insts[0]["hmtx"][n][0] for n in insts[0].getGlyphOrder()},
+                            "adv1": {n: insts[1]["hmtx"][n][0] for n in insts[1].getGlyphOrder()}})
+    return [rec]
+
+
 def execute(case):
+    if case.get("var"):
+        return _execute_var(case)
     rec = compile_exec.static_compile(case)
     if rec.get("skip"):
         return [rec]
@@ -67,11 +255,14 @@ def execute(case):
 
 
 def preclassify(rec, rep):
-    if rec.get("skip"):
+    if rec.get("skip") is True:
         rep.notes["skipped"] = rep.notes.get("skipped", 0) + 1
         return "skip"
 
 
 def nontrivial(rec):
+    if rec.get("_acc") == "var":
+        sk = set(rec["skip"])
+        return any(c["b"] in sk for n, g in rec["m0"].items() if n not in sk for c in g["comps"])
     sk = set(rec["opts"]["skip"])
     return any(c["b"] in sk for n, g in rec["src"].items() if n not in sk for c in g["comps"])
